@@ -126,3 +126,43 @@ class Census:
                 counts[kind] = n + 1
                 out.append(('%s|%s|#%d' % (self.fn_key(fn), kind, n), fn, bb, kind, t[4]))
         return out
+
+
+INT_W = {'u8': 8, 'i8': 8, 'u16': 16, 'i16': 16, 'u32': 32, 'i32': 32, 'u64': 64, 'i64': 64, 'usize': 64, 'isize': 64, 'u128': 128, 'i128': 128}
+
+
+def lossy_casts(census, fns):
+    """narrowing or sign-changing integer casts and float->int casts: [(fn_key, 'from->to', body, bb)]"""
+    F = census.F
+    out = []
+    for fn in sorted(fns):
+        if not F.has_fn(fn):
+            continue
+        b = F.body(fn)
+        for i in sorted(b.reach):
+            for s in b.stmts(i):
+                if s[0] == 'a' and s[2][0] == 'cast' and s[2][1] in ('IntToInt', 'FloatToInt'):
+                    to = s[2][3]
+                    o = s[2][2]
+                    fr = b.locals[o[1][0]] if o[0] in ('c', 'm') and len(o[1]) == 1 else (o[3] if o[0] == 'k' else '?')
+                    if s[2][1] == 'FloatToInt' or (fr in INT_W and to in INT_W and (INT_W[to] < INT_W[fr] or (INT_W[to] == INT_W[fr] and fr[0] != to[0]))):
+                        out.append((census.fn_key(fn), '%s->%s' % (fr, to), b, i))
+    return out
+
+
+def check_casts(census, fns, rep, rid, table, what):
+    import re as _re
+    per = {}
+    for fk, ft, b, bb in lossy_casts(census, fns):
+        per.setdefault((fk, ft), []).append((b, bb))
+    for (fk, ft), lst in sorted(per.items()):
+        ent = None
+        for rx, t, cnt, why in table:
+            if t == ft and _re.search(rx, fk):
+                ent = (cnt, why)
+        if ent and len(lst) <= ent[0]:
+            rep.ok(rid, '%s: %s x%d' % (fk, ft, len(lst)), 'reviewed: ' + ent[1])
+        else:
+            rep.viol(rid, '%s|cast|%s' % (fk, ft), '%s: %d lossy `as` cast(s) %s in %s (reviewed: %d): the value is truncated / wrapped / saturated silently instead of being rejected'
+                     % (what, len(lst), ft, fk, ent[0] if ent else 0), lst[-1][0].loc(lst[-1][1]))
+    return sum(len(v) for v in per.values())
